@@ -36,7 +36,12 @@ def render1 {α} (render : α → Bytes) : Res α → String
 def run (t : List String) : String :=
   match t with
   | [codec, algo, frames] =>
-    let parsed := (frames.splitOn ";").map parseTok
+    -- `<n>*<frame>` stands for n copies of the frame (only in front of `M=` / `B=` tokens without `~` runs before it)
+    let expand (f : String) : List String :=
+      match f.splitOn "*" with
+      | n :: rest => if n.isNat ∧ !rest.isEmpty then List.replicate n.toNat! ("*".intercalate rest) else [f]
+      | [] => [f]
+    let parsed := ((frames.splitOn ";").flatMap expand).map parseTok
     let wire := parsed.map (·.1)
     let z := if algo = "-" then noCompression else tableCompressor (parsed.filterMap (·.2))
     let outs : List String :=
